@@ -235,7 +235,7 @@ def dtor_table(ctx, prog, cfg):
                   "functions: its ordering with respect to the header has not been reviewed"
                   % (short, "; ".join(d for _, _, d in ds)),
                   "reviewed: " + (ent or ""), cfg)
-    missing = [s for s in table if s not in found and table_applies(s, prog)]
+    missing = [s for s in tables.DESTROYS_T_REQUIRED if s not in found and table_applies(s, prog)]
     ctx.check(not missing, "DTOR-TABLE", "*", "table entries present", "?",
               "reviewed destroying functions no longer found: %s" % missing,
               "%d table entries found" % len(table), cfg, nontrivial=False)
